@@ -264,6 +264,7 @@ def handle (cmd : String) (j : Json) : R Json := do
       pure (Json.bool (Regex.isMatch (← reOfJson (← field j "re")) (← fChars j "text")))
   | "cfg.run" => cfgRun j
   | "env.name" => envNameCmd j
+  | "paths" => pathsCmd j
   | "hash" => do
       match Hash.byName (← fStr j "alg") with
       | some h => pure (Json.mkObj [("digest", bytesJson (h (← fBytes j "data")))])
